@@ -42,6 +42,12 @@ class Contract:
         # clauses that follow from requires + ensures alone (proved in a clean context that
         # contains only those, not by executing the code); assumed at call sites like ensures
         self.derived: list[str] = kw.pop("derived", [])
+        # Abstract face used at call sites (opaque / reveal): when given, callers see only these
+        # clauses.  abs_requires must be a predicate that is established solely by abs_ensures of
+        # this class's constructor (so it implies the full requires); abs_ensures must be a subset
+        # of, or follow from, ensures + derived.  Both conditions are stated per contract.
+        self.abs_requires = kw.pop("abs_requires", None)
+        self.abs_ensures = kw.pop("abs_ensures", None)
         self.extra = kw
         if kw:
             unknown = set(kw) - {"doc", "known", "not_decided", "denominators"}
@@ -193,8 +199,7 @@ class Registry:
         ctx = I.ctx
 
         def fn(*i):
-            for k in i:
-                I.saw_index(k)
+            I.saw_read(name, i)
             return raw(*i)
         t.fn = fn if shape else raw
         return t
@@ -389,7 +394,7 @@ class Registry:
         fr = self.contract_frame(I, fref.module, f"call:{callee}", env, old_env)
         if c.post_setup:
             c.post_setup(I, fr)      # ghost definitions are needed by the requires as well
-        for k, src in enumerate(c.requires):
+        for k, src in enumerate(c.requires if c.abs_requires is None else c.abs_requires):
             v = self.eval_clause(I, src, fr)
             self.prove_clause(I, f"call:{callee}/pre#{k}", v, "pre", fr)
         # exceptional exits
@@ -402,7 +407,7 @@ class Registry:
                 continue
             cv = True if cond is None else self.eval_clause(I, cond, fr)
             nd = ctx.fresh(f"{callee}.raises.{exc}", "bool")
-            if ctx.branch(ops.b_and(nd, cv)):
+            if ctx.branch(ops.b_and(nd, cv), free=(cv is True)):
                 raise RaiseSig(exc, f"from {callee}", ctx.cur_line)
         # frame
         if is_init and c.fresh_self:
@@ -420,7 +425,7 @@ class Registry:
         fr.locals["result"] = result
         if c.post_setup:
             c.post_setup(I, fr)
-        for src in list(c.ensures) + list(c.derived):
+        for src in (list(c.ensures) + list(c.derived) if c.abs_ensures is None else c.abs_ensures):
             self.assume_clause(I, self.eval_clause(I, src, fr))
         return result
 
